@@ -263,8 +263,43 @@ func genC08Large(g *G) {
 	}
 }
 
+// genC08Probe: "ask, touch others, use": Has(k) on a present key, then Gets of OTHER present keys (which move
+// entries inside the recency heap), then Get(k) or Remove(k), then Puts that evict — what a lookup may remember about
+// k's place is stale by then (round-7 seed); with the blind re-execution the Has is not followed by other lookups.
+func genC08Probe(g *G) {
+	for c := 0; c < g.Scale(80, 800); c++ {
+		limit := 3 + g.Intn(6)
+		keys := limit + 3
+		ops := []string{fmt.Sprintf("reset %d unit %d", limit, keys)}
+		val := 1
+		put := func(k int) { ops = append(ops, fmt.Sprintf("put %d %d", k, val*5+1)); val++ }
+		for k := 0; k < limit; k++ {
+			put(k)
+		}
+		for round := 0; round < 2+g.Intn(3); round++ {
+			k := g.Intn(limit)
+			ops = append(ops, fmt.Sprintf("has %d", k))
+			for n := 1 + g.Intn(3); n > 0; n-- {
+				j := g.Intn(limit)
+				if j != k {
+					ops = append(ops, fmt.Sprintf("get %d", j))
+				}
+			}
+			ops = append(ops, g.Pick("get", "get", "remove")+fmt.Sprintf(" %d", k))
+			if g.Chance(1, 2) {
+				put(k)
+			}
+		}
+		for k := limit; k < keys; k++ { // evict: shows the recency order
+			put(k)
+		}
+		g.Case(ops)
+	}
+}
+
 func genC08(g *G) {
 	genC08Large(g)
+	genC08Probe(g)
 	cases := g.Scale(500, 12000)
 	maxOps := g.Scale(100, 400)
 	for c := 0; c < cases; c++ {
